@@ -4,15 +4,19 @@
 //! paused-clock tokio runtime and reports the events arriving on the manager's response channel.
 //!
 //! Ops (same as `lean/BarterModel/Driver/C07.lean`):
-//!   `init T n [m]` (m configured assets, default 0)
+//!   `init T n [m [x]]` (m configured assets, default 0; x = the manager's OWN exchange index / exchange id number,
+//!     default 0, at most 3: requests for another exchange index make the manager panic, answers echoing another
+//!     exchange id are filtered)
 //!   | `open|cancel ex ins strat cid body delay reply fills eex eins estrat ecid ebody [oid tex]`
 //!     body  = code of the request's state: opens -> static fields (`body_fields`: side / price / quantity from
-//!             `body % 6`, Limit|Market from `(body / 6) % 2`, time in force from `(body / 12) % 5`), cancels ->
+//!             `body % 6`, Limit|Market from `(body / 6) % 2`, time in force from `(body / 12) % 5`; codes 60..219:
+//!             price / quantity from the table `EXOTIC[(body - 60) % 8]` - tiny, huge, fractional, negative price, zero
+//!             and negative quantity -, side / kind / time in force from `(body - 60) / 8`), cancels ->
 //!             `RequestCancel { id }` (0 = None, k+1 = Some("o<k>"))
 //!     reply = ok | rej | inv<i> | conn_timeout | conn_offline | conn_socket | ainv<a> | bal<a> | rate | acx | aff
 //!     (the scripted client returns the real `UnindexedOrderError` values)
 //!     fills = filled quantity of an accepted open relative to the ECHOED order's quantity: 0 nothing | 1 all |
-//!             2 half (partial fill) | 3 quantity + 1
+//!             2 half (partial fill) | 3 quantity + 1 | 4 quantity - 1e-8 (all but the smallest unit) | 5 quantity + 1e-8
 //!     oid tex (default 0 0) = payload of the client's answer: order id `o<oid>`, exchange time +`tex` ms, error
 //!             text `m<oid>`, `ExchangeOffline(exchange oid % 4)`
 //!   The scripted client RECORDS every request the manager hands it (`fwd ...` observation lines) and answers
@@ -90,7 +94,7 @@ enum Reply {
 struct Script {
     delay: Option<u64>,
     reply: Reply,
-    /// 0 nothing | 1 the echoed order's quantity | 2 half of it | 3 quantity + 1
+    /// 0 nothing | 1 the echoed order's quantity | 2 half of it | 3 quantity + 1 | 4 quantity - 1e-8 | 5 quantity + 1e-8
     fills: u8,
     /// payload of the answer: order id `o<oid>` / error text `m<oid>` / `ExchangeOffline(oid % 4)`
     oid: u64,
@@ -111,7 +115,7 @@ struct ScriptedClient {
 }
 
 fn exchange_id(e: usize) -> ExchangeId {
-    // the manager under test is configured for exchange 0 = Mock
+    // the manager under test is configured for exchange 0 = Mock unless `init` names another one
     match e {
         0 => ExchangeId::Mock,
         1 => ExchangeId::BinanceSpot,
@@ -130,21 +134,56 @@ fn asset_name(a: usize) -> AssetNameExchange {
 
 /// static fields of the order with code `body` (codes 0..5: the Limit / GTC orders of the first corpus)
 fn body_fields(body: u64) -> (Side, Decimal, Decimal, OrderKind, TimeInForce) {
-    assert!(body < 60, "bad body code {body}");
+    assert!(body < BODY_CODES, "bad body code {body}");
+    let kind = |k: u64| if k % 2 == 0 { OrderKind::Limit } else { OrderKind::Market };
+    let tif = |t: u64| match t % 5 {
+        0 => TimeInForce::GoodUntilCancelled { post_only: false },
+        1 => TimeInForce::GoodUntilCancelled { post_only: true },
+        2 => TimeInForce::GoodUntilEndOfDay,
+        3 => TimeInForce::FillOrKill,
+        _ => TimeInForce::ImmediateOrCancel,
+    };
+    if body >= 60 {
+        let x = body - 60;
+        let (price, quantity) = EXOTIC[(x % 8) as usize];
+        return (
+            if (x / 8) % 2 == 0 { Side::Buy } else { Side::Sell },
+            parse_dec(price),
+            parse_dec(quantity),
+            kind(x / 16),
+            tif(x / 32),
+        );
+    }
     let base = body % 6;
     (
         if base % 2 == 0 { Side::Buy } else { Side::Sell },
         Decimal::from(base),
         Decimal::from(base + 1),
-        if (body / 6) % 2 == 0 { OrderKind::Limit } else { OrderKind::Market },
-        match (body / 12) % 5 {
-            0 => TimeInForce::GoodUntilCancelled { post_only: false },
-            1 => TimeInForce::GoodUntilCancelled { post_only: true },
-            2 => TimeInForce::GoodUntilEndOfDay,
-            3 => TimeInForce::FillOrKill,
-            _ => TimeInForce::ImmediateOrCancel,
-        },
+        kind(body / 6),
+        tif(body / 12),
     )
+}
+
+/// number of `body` codes of an open: 60 small-integer orders + 8 x 2 x 2 x 5 orders over `EXOTIC`
+const BODY_CODES: u64 = 60 + 160;
+
+/// (price, quantity) of the body codes >= 60 (the same table as `exotic` in `lean/BarterModel/Driver/C07.lean`):
+/// the smallest unit, 1e12, a negative price with a fractional quantity, quantity ZERO, many digits, huge x tiny,
+/// 1e15, a NEGATIVE quantity (the types are signed Decimals; the manager does not validate them)
+const EXOTIC: [(&str, &str); 8] = [
+    ("0.00000001", "0.00000001"),
+    ("1000000000000", "1000000000000"),
+    ("-3.5", "2.25"),
+    ("0.5", "0"),
+    ("123456.789", "0.001"),
+    ("1000000000000", "0.00000001"),
+    ("1", "1000000000000000"),
+    ("0", "-1"),
+];
+
+/// 1e-8
+fn smallest_unit() -> Decimal {
+    Decimal::new(1, 8)
 }
 
 /// the static fields as they are, one token: `B|S:price:quantity:L|M:tif`
@@ -324,7 +363,9 @@ impl ExecutionClient for ScriptedClient {
                         0 => Decimal::ZERO,
                         1 => quantity,
                         2 => quantity / Decimal::from(2),
-                        _ => quantity + Decimal::ONE,
+                        3 => quantity + Decimal::ONE,
+                        4 => quantity - smallest_unit(),
+                        _ => quantity + smallest_unit(),
                     },
                 }),
                 _ => Err(script.error()),
@@ -439,7 +480,8 @@ struct Live {
     status: &'static str,
 }
 
-fn start(timeout: u64, n: usize, n_assets: usize) -> Live {
+fn start(timeout: u64, n: usize, n_assets: usize, own_exchange: usize) -> Live {
+    assert!(own_exchange < 4, "bad exchange {own_exchange}");
     let (req_tx, req_rx) = mpsc_unbounded();
     let (resp_tx, resp_rx) = mpsc_unbounded();
     let client = ScriptedClient::default();
@@ -447,7 +489,13 @@ fn start(timeout: u64, n: usize, n_assets: usize) -> Live {
         (0..n).map(|i| (InstrumentIndex(INDEX_OFFSET + i), ins_name(i))).collect();
     let assets: FnvIndexMap<AssetIndex, AssetNameExchange> =
         (0..n_assets).map(|a| (AssetIndex(ASSET_OFFSET + a), asset_name(a))).collect();
-    let map = ExecutionInstrumentMap::new(Keyed::new(ExchangeIndex(0), ExchangeId::Mock), assets, instruments);
+    // the manager's own exchange: engine index `own_exchange`, exchange id `exchange_id(own_exchange)` (0 = the
+    // first exchange of the system, Mock)
+    let map = ExecutionInstrumentMap::new(
+        Keyed::new(ExchangeIndex(own_exchange), exchange_id(own_exchange)),
+        assets,
+        instruments,
+    );
     let manager = ExecutionManager::new(
         req_rx.into_stream(),
         ticks(timeout),
@@ -521,6 +569,8 @@ fn parse_script(op: &[String]) -> Script {
             "1" => 1,
             "2" => 2,
             "3" => 3,
+            "4" => 4,
+            "5" => 5,
             other => panic!("bad fills {other}"),
         },
         oid: op.get(14).map(|x| x.parse().unwrap()).unwrap_or(0),
@@ -564,7 +614,8 @@ fn run() {
                 match op[0].as_str() {
                     "init" => {
                         let n_assets = op.get(3).map(|m| m.parse().unwrap()).unwrap_or(0);
-                        live = Some(start(op[1].parse().unwrap(), op[2].parse().unwrap(), n_assets));
+                        let own_exchange = op.get(4).map(|x| x.parse().unwrap()).unwrap_or(0);
+                        live = Some(start(op[1].parse().unwrap(), op[2].parse().unwrap(), n_assets, own_exchange));
                     }
                     "open" | "cancel" => {
                         let l = live.as_mut().expect("init first");
@@ -608,11 +659,28 @@ struct Gen {
     m: usize,
     t: u64,
     faithful_pct: u64,
+    /// the manager's own exchange (0 in the main family)
+    x: usize,
+    /// % of opens with a body code >= 60 (`EXOTIC`) and the fills codes 4 / 5 (0 in the main family)
+    exotic_pct: u64,
+    /// delays around a LARGE timeout: T-1 / T / T+1 / 2T next to 0 / 1 / never
+    near_t: bool,
 }
 
 impl Gen {
     fn delay(&mut self) -> String {
         let t = self.t;
+        if self.near_t {
+            return match self.rng.below(10) {
+                0 => "0".into(),
+                1 => "1".into(),
+                2 | 3 => (t - 1).to_string(),
+                4 | 5 => t.to_string(),
+                6 | 7 => (t + 1).to_string(),
+                8 => (2 * t).to_string(),
+                _ => "never".into(),
+            };
+        }
         // {0, <T, =T, >T, never}
         match self.rng.below(8) {
             0 => "0".into(),
@@ -626,12 +694,17 @@ impl Gen {
 
     fn request(&mut self, bad_key: bool) -> String {
         let open = self.rng.chance(55);
-        let ex = if bad_key && self.rng.chance(50) { 1 } else { 0 };
-        let ins = if bad_key && ex == 0 { self.n + self.rng.below(2) as usize } else { self.rng.below(self.n as u64) as usize };
+        // an exchange that is not the manager's own: the first one (index 0) for a manager that is not the first
+        let other = if self.x == 0 { 1 } else { 0 };
+        let ex = if bad_key && self.rng.chance(50) { other } else { self.x };
+        let ins = if bad_key && ex == self.x { self.n + self.rng.below(2) as usize } else { self.rng.below(self.n as u64) as usize };
         let strat = self.rng.below(2);
         let cid = self.rng.below(4);
         // opens: side / price / quantity x Limit|Market x time in force; cancels: `id` None | Some(o<k>)
-        let body = if open {
+        let exotic = open && self.exotic_pct > 0 && self.rng.chance(self.exotic_pct);
+        let body = if exotic {
+            60 + self.rng.below(BODY_CODES - 60)
+        } else if open {
             let kind = if self.rng.chance(30) { 1 } else { 0 };
             let tif = if self.rng.chance(45) { self.rng.below(5) } else { 0 };
             self.rng.below(5) + 6 * kind + 12 * tif
@@ -655,7 +728,13 @@ impl Gen {
             _ => self.rng.pick(&["rate", "acx", "aff"]).to_string(),
         };
         // filled quantity of an accepted open: nothing / all (fully filled) / half (partial fill) / over-fill
-        let fills = if open { *self.rng.pick(&[0u8, 0, 0, 0, 1, 1, 2, 2, 2, 3]) } else { 0 };
+        let fills = if open && self.exotic_pct > 0 {
+            *self.rng.pick(&[0u8, 0, 1, 1, 2, 2, 3, 4, 4, 4, 5, 5])
+        } else if open {
+            *self.rng.pick(&[0u8, 0, 0, 0, 1, 1, 2, 2, 2, 3])
+        } else {
+            0
+        };
         // payload of the answer: order id / error text, exchange time
         let oid = self.rng.below(5);
         let tex = self.rng.below(7);
@@ -666,14 +745,14 @@ impl Gen {
                 7 | 8 => {
                     reply = format!("{}{}", self.rng.pick(&["bal", "ainv"]), self.m + self.rng.below(2) as usize)
                 }
-                0 => eex = 1,
+                0 => eex = other,
                 1 => eins = self.n + self.rng.below(2) as usize, // unknown instrument name
                 2 => eins = (ins + 1) % self.n.max(1),           // another (or the same) configured instrument
                 3 => ecid = cid + 1,
                 4 => estrat = strat + 1,
                 5 => {
                     if open {
-                        ebody = body + 1
+                        ebody = if body + 1 < BODY_CODES { body + 1 } else { 60 }
                     } else {
                         ecid = cid + 2
                     }
@@ -685,6 +764,124 @@ impl Gen {
             "{} {ex} {ins} {strat} {cid} {body} {delay} {reply} {fills} {eex} {eins} {estrat} {ecid} {ebody} {oid} {tex}",
             if open { "open" } else { "cancel" }
         )
+    }
+}
+
+/// what an input-domain family changes of a random case (`default()` = the main family, unchanged)
+#[derive(Default)]
+struct Family {
+    /// request timeout (None: drawn from {0,1,2,3,5,8})
+    t: Option<u64>,
+    /// the manager's own exchange
+    x: usize,
+    exotic_pct: u64,
+    /// size of the first batch
+    batch: Option<(i64, i64)>,
+    /// a silence of this many ticks after every round
+    idle: u64,
+    empty: bool,
+}
+
+fn random_case(out: &mut Out, rng: &mut Rng, id: String, thorough: bool, fam: &Family) {
+    out.case(id);
+    let n = rng.range(1, 3) as usize;
+    let mut t = *rng.pick(&[0u64, 1, 2, 3, 5, 8]);
+    if let Some(big) = fam.t {
+        t = big;
+    }
+    // configured assets: none (as the manager was configured before the alphabet was extended; 2-arg init),
+    // or 1-3
+    let m = *rng.pick(&[0usize, 1, 2, 2, 3]);
+    if fam.x != 0 {
+        out.line(format!("init {t} {n} {m} {}", fam.x));
+    } else if m == 0 {
+        out.line(format!("init {t} {n}"));
+    } else {
+        out.line(format!("init {t} {n} {m}"));
+    }
+    let mut g = Gen { rng: rng.fork(), n, m, t, faithful_pct: *rng.pick(&[100u64, 100, 92, 70]),
+        x: fam.x,
+        exotic_pct: fam.exotic_pct,
+        near_t: t >= 50,
+    };
+    if fam.empty {
+        for _ in 0..g.rng.range(1, 4) {
+            let dt = g.rng.range(0, t as i64 + 2);
+            out.line(format!("{} {dt}", if g.rng.chance(30) { "jump" } else { "adv" }));
+        }
+        if g.rng.chance(60) {
+            out.line("shutdown");
+            out.line("adv 1");
+        }
+        return;
+    }
+    let max_batch = if thorough { 40 } else { 24 };
+    let rounds = g.rng.range(1, 4);
+    let panic_case = g.rng.chance(3);
+    let shutdown_case = g.rng.chance(12);
+    for round in 0..rounds {
+        let mut batch = match g.rng.below(4) {
+            0 => g.rng.range(1, 3),
+            1 | 2 => g.rng.range(2, 10),
+            _ => g.rng.range(8, max_batch),
+        };
+        if let Some((lo, hi)) = fam.batch {
+            // the first round is the large one
+            if round == 0 {
+                batch = g.rng.range(lo, hi);
+            }
+        }
+        // bursts: runs of requests sent without yielding, so the manager finds several of them
+        // (and possibly the instant responses of the first ones) in one wake-up
+        let bursty = g.rng.chance(50);
+        let mut open_burst = false;
+        for _ in 0..batch {
+            let mut r = g.request(false);
+            open_burst = bursty && g.rng.chance(60);
+            if open_burst {
+                r = r.replacen("open ", "open+ ", 1).replacen("cancel ", "cancel+ ", 1);
+            }
+            out.line(r);
+            if g.rng.chance(if fam.batch.is_some() { 3 } else { 15 }) {
+                let dt = g.rng.range(0, 2);
+                out.line(format!("adv {dt}"));
+                open_burst = false;
+            }
+        }
+        if open_burst {
+            // a burst ends at the instant it was sent: the manager takes the requests in before the
+            // clock moves (a `jump` right after a burst would move the intake, and with it every
+            // deadline, to the later instant)
+            out.line("adv 0");
+        }
+        if panic_case && round == rounds - 1 {
+            let r = g.request(true);
+            out.line(r);
+        }
+        if shutdown_case && round == rounds / 2 {
+            out.line("shutdown");
+        }
+        // let time pass: single ticks, exact timeout, jumps over both response and deadline
+        let steps = g.rng.range(1, 5);
+        for _ in 0..steps {
+            let dt = match g.rng.below(5) {
+                0 => 1,
+                1 => t,
+                2 => t + 1,
+                3 => g.rng.range(0, 3) as u64,
+                _ => g.rng.range(0, t as i64 + 5) as u64,
+            };
+            let late = g.rng.chance(30);
+            out.line(format!("{} {dt}", if late { "jump" } else { "adv" }));
+        }
+        if fam.idle > 0 {
+            // a long silence (everything outstanding is long resolved), then the next round
+            out.line(format!("{} {}", if g.rng.chance(30) { "jump" } else { "adv" }, fam.idle));
+        }
+    }
+    // drain: beyond every deadline
+    if g.rng.chance(85) {
+        out.line(format!("adv {}", t + 6));
     }
 }
 
@@ -743,76 +940,41 @@ fn generate(seed: u64, n_cases: usize, tier: &str) {
     }
     for _ in 0..n_cases {
         id += 1;
-        out.case(format!("r{id}"));
-        let n = rng.range(1, 3) as usize;
-        let t = *rng.pick(&[0u64, 1, 2, 3, 5, 8]);
-        // configured assets: none (as the manager was configured before the alphabet was extended; 2-arg init),
-        // or 1-3
-        let m = *rng.pick(&[0usize, 1, 2, 2, 3]);
-        if m == 0 {
-            out.line(format!("init {t} {n}"));
-        } else {
-            out.line(format!("init {t} {n} {m}"));
-        }
-        let mut g = Gen { rng: rng.fork(), n, m, t, faithful_pct: *rng.pick(&[100u64, 100, 92, 70]) };
-        let max_batch = if thorough { 40 } else { 24 };
-        let rounds = g.rng.range(1, 4);
-        let panic_case = g.rng.chance(3);
-        let shutdown_case = g.rng.chance(12);
-        for round in 0..rounds {
-            let batch = match g.rng.below(4) {
-                0 => g.rng.range(1, 3),
-                1 | 2 => g.rng.range(2, 10),
-                _ => g.rng.range(8, max_batch),
-            };
-            // bursts: runs of requests sent without yielding, so the manager finds several of them
-            // (and possibly the instant responses of the first ones) in one wake-up
-            let bursty = g.rng.chance(50);
-            let mut open_burst = false;
-            for _ in 0..batch {
-                let mut r = g.request(false);
-                open_burst = bursty && g.rng.chance(60);
-                if open_burst {
-                    r = r.replacen("open ", "open+ ", 1).replacen("cancel ", "cancel+ ", 1);
-                }
-                out.line(r);
-                if g.rng.chance(15) {
-                    let dt = g.rng.range(0, 2);
-                    out.line(format!("adv {dt}"));
-                    open_burst = false;
-                }
-            }
-            if open_burst {
-                // a burst ends at the instant it was sent: the manager takes the requests in before the
-                // clock moves (a `jump` right after a burst would move the intake, and with it every
-                // deadline, to the later instant)
-                out.line("adv 0");
-            }
-            if panic_case && round == rounds - 1 {
-                let r = g.request(true);
-                out.line(r);
-            }
-            if shutdown_case && round == rounds / 2 {
-                out.line("shutdown");
-            }
-            // let time pass: single ticks, exact timeout, jumps over both response and deadline
-            let steps = g.rng.range(1, 5);
-            for _ in 0..steps {
-                let dt = match g.rng.below(5) {
-                    0 => 1,
-                    1 => t,
-                    2 => t + 1,
-                    3 => g.rng.range(0, 3) as u64,
-                    _ => g.rng.range(0, t as i64 + 5) as u64,
-                };
-                let late = g.rng.chance(30);
-                out.line(format!("{} {dt}", if late { "jump" } else { "adv" }));
-            }
-        }
-        // drain: beyond every deadline
-        if g.rng.chance(85) {
-            out.line(format!("adv {}", t + 6));
-        }
+        random_case(&mut out, &mut rng, format!("r{id}"), thorough, &Family::default());
+    }
+    // INPUT-DOMAIN families (separately seeded: the cases above are what they were): n/4 more cases
+    let mut drng = Rng::new(seed ^ 0x00D0_3A17_C07D_0C07);
+    for k in 0..n_cases / 4 {
+        let fam = match k % 8 {
+            // a manager that is NOT the first exchange of the system (own exchange index / id 1..3)
+            0 | 1 => Family { x: 1 + drng.below(3) as usize, ..Family::default() },
+            // Decimal domain of price / quantity / filled quantity
+            2 | 3 => Family { exotic_pct: 70, ..Family::default() },
+            // more than 32 requests outstanding at once
+            4 => Family {
+                batch: Some((33, if thorough { 200 } else { 90 })),
+                t: Some(*drng.pick(&[2u64, 3, 5, 8])),
+                ..Family::default()
+            },
+            // a large timeout (delays T-1 / T / T+1) and long idle gaps between the rounds
+            5 => Family {
+                t: Some(*drng.pick(&[50u64, 1000, 100_000])),
+                idle: *drng.pick(&[0u64, 700, 250_000]),
+                ..Family::default()
+            },
+            // all of it at once
+            6 => Family {
+                x: 1 + drng.below(3) as usize,
+                exotic_pct: 50,
+                batch: Some((20, 50)),
+                t: Some(*drng.pick(&[0u64, 2, 50])),
+                idle: *drng.pick(&[0u64, 0, 300]),
+                ..Family::default()
+            },
+            // no request at all: time passes, then shutdown
+            _ => Family { empty: true, ..Family::default() },
+        };
+        random_case(&mut out, &mut drng, format!("d{}", k + 1), thorough, &fam);
     }
     out.flush();
 }
